@@ -112,6 +112,9 @@ def name_tree(rng, shape, fancy=False):
             lc[0] += 1
             if casepairs:
                 return (('L%d' if lc[0] % 2 else 'l%d') % ((lc[0] + 1) // 2), ())
+            if oma and rng.random() < 0.2:
+                # near-misses of an OMA species code: five characters but not a code, or a code followed by more characters
+                return (rng.choice(['Sp%03d', 'sP%03d', 'SP%03dX', 'S-%03d']) % lc[0], ())
             return (nm('L', lc[0]) if fancy else ('SP%03d' % lc[0] if oma else 'L%d' % lc[0]), ())
         ic[0] += 1
         me = nm('I', ic[0]) if fancy else ('CL%03d' % ic[0] if (oma and rng.random() < 0.25) else 'I%d' % ic[0])   # some clades named like OMA codes
